@@ -80,6 +80,8 @@ switches! {
     noncopy_var_move,       // `y = x` / field / element initialised from a bare str/list/model variable
     ctor_arg_index,         // index/slice expression as constructor argument
     enum_str_payload,       // str payload in enum variants (pattern-bound strs have no type in lowering)
+    aug_compound_rhs,       // `x -= a + b`: compound right-hand side of a compound assignment
+    setindex_self_ref,      // `xs[xs[0]] = v`: index expression reading the list being written
 }
 
 impl Default for Switches {
